@@ -327,6 +327,7 @@ def observe(data: bytes, errors=None):
         p["ts_us"] = ts_us
         p["ts_exact"] = exact
         p["idx"] = i
+        p["raw"] = fr
         parsed.append(p)
     tcp, udp = reassemble(parsed, errs)
     if strict and errs:
